@@ -8,9 +8,11 @@ CONSTANTS
   Dev_drop = TRUE
   Dev_cryptv = TRUE
   Dev_mdstr = TRUE
+  Dev_osres = TRUE
+  Dev_cind = TRUE
   Dev_osrep = TRUE
   Dev_dparr = TRUE
-  DocIds = {"D1", "D2", "D3", "D4", "D5", "D6"}
+  DocIds = {"D1", "D2", "D3", "D4", "D5", "D6", "D7"}
   V2Lens = {40, 128}
   V4Stm = {"RC4", "AES128", "Identity"}
   V4Str = {"RC4", "AES128", "Identity"}
